@@ -19,6 +19,7 @@ type GenOpts struct {
 	Programs      bool // draw ordered / derived programs too
 	AvoidKnown    bool // mostly avoid configurations with an open known finding
 	PlainOwner    bool // allow hook programs whose children carry a plain ownerReference to the parent
+	SameNames     bool // allow hook programs that give children in different namespaces the same name (cluster-scoped parents)
 	LookAlikes    bool // populate foreign-owned / other-namespace / non-matching look-alikes
 	ExpressionSel bool // parents may use matchExpressions selectors
 	Resync        bool
@@ -144,6 +145,8 @@ func NewCompositeSetup(w *World, g GenOpts) *Setup {
 				tp.EchoAnnotations = false
 			}
 		}
+	case 4:
+		tp.SameNames = g.SameNames
 	case 7:
 		// (only where asked for: with dynamic apply such a hook never converges on the
 		// unchanged tree - a recorded finding - and would drown every liveness oracle)
@@ -196,7 +199,7 @@ func NewCompositeSetup(w *World, g GenOpts) *Setup {
 		ms = append(ms, r.Res.Kind+":"+r.Method)
 	}
 	w.Cfg["children"] = strings.Join(ms, ",")
-	w.Cfg["program"] = fmt.Sprintf("ordered=%v derived=%v emptyNS=%v plainOwner=%v echoAnnotations=%v", tp.Ordered, tp.Derived, tp.EmptyNS, tp.PlainOwner, tp.EchoAnnotations)
+	w.Cfg["program"] = fmt.Sprintf("ordered=%v derived=%v emptyNS=%v plainOwner=%v echoAnnotations=%v sameNames=%v", tp.Ordered, tp.Derived, tp.EmptyNS, tp.PlainOwner, tp.EchoAnnotations, tp.SameNames)
 	return s
 }
 
@@ -243,7 +246,12 @@ func (s *Setup) addInitialObject(p Object, g GenOpts) {
 		setPath(child, []interface{}{ownerRefObj(p, true)}, "metadata", "ownerReferences")
 	case 3: // foreign-controlled look-alike under another name
 		setPath(child, fmt.Sprintf("%s-foreign%d", name, idx), "metadata", "name")
-		setPath(child, []interface{}{Object{"apiVersion": "v1", "kind": "Other", "name": "x", "uid": "uid-other", "controller": true}}, "metadata", "ownerReferences")
+		refs := []interface{}{Object{"apiVersion": "v1", "kind": "Other", "name": "x", "uid": "uid-other", "controller": true}}
+		if t.Pick(3, "foreignref") == 2 {
+			// ... that lists the parent, too, as a plain (non-controller) owner
+			refs = append(refs, ownerRefObj(p, false))
+		}
+		setPath(child, refs, "metadata", "ownerReferences")
 	case 4: // matching orphan with an extra non-controller owner
 		setPath(child, fmt.Sprintf("%s-extra%d", name, idx), "metadata", "name")
 		setPath(child, []interface{}{Object{"apiVersion": "v1", "kind": "Other", "name": "y", "uid": "uid-other-y"}}, "metadata", "ownerReferences")
